@@ -109,6 +109,9 @@ def to_spec(item):
 
 
 def evaluate(item):
+    if isinstance(item, dict) and item.get("kind") == "wide":
+        from mc.props import wide
+        return wide.eval_c01(item)
     spec = to_spec(item)
     obs = common.run_spec(spec, monitor_ledger=True)
     if obs.get("error"):
@@ -149,6 +152,8 @@ def run(ctx):
     explore(ctx, projects(ctx.tier), "mc.props.c01:evaluate", st, payload=payload, sample_of=sample)
     from mc.props import c03
     explore(ctx, c03.team_blockers(ctx.tier), "mc.props.c01:evaluate", st, payload=payload, sample_of=sample)
+    from mc.props import wide
+    wide.sweep(ctx, st, "C01")
     common.vacuity_guard(ctx, st)
     cov = st.coverage(
         "mode B: all operation histories place(f,link)^d, d <= depth, x (resolution, efficiency, direction); mode A: complete product "
@@ -156,7 +161,7 @@ def run(ctx):
         "bookings executed by the real scheduler (the sum/counter invariant is evaluated after each); non-trivial = some slot of a "
         "resource is shared by >= 2 tasks",
         histories=nh, projects_and_team_blocker_cases=st.evaluations - nh, history_depth=3 if ctx.tier == "quick" else 4)
-    return ctx.finish(cov, ASSUME)
+    return ctx.finish(cov, ASSUME + [wide.NOTE])
 
 
 def replay(path):
